@@ -306,8 +306,8 @@ def plan_literals(tier, rng, rep, tlcs, mods, plans):
             rep.disagree(dict(desc, form="node_type"), "wrong-type", {"text": r["text"], "value": str(v), "node_type": ty})
 
     # compiled modules
-    n_ret = 1800 if quick else 5000
-    n_form = 300 if quick else 1200
+    n_ret = 1800 if quick else 3500
+    n_form = 300 if quick else 900
     cases = []       # (rec, form)
     n_lzu = sum(1 for r in recs if r["lzu"])
     recs = [r for r in recs if not r["lzu"]]        # valid Python that Cython's lexer rejects: no run-time value to compare
@@ -315,7 +315,7 @@ def plan_literals(tier, rng, rep, tlcs, mods, plans):
     # C compile error, again a rejected program without a run-time value
     n_infj = sum(1 for r in recs if r["kind"] == "imag" and svals[r["text"]].imag == float("inf"))
     recs = [r for r in recs if not (r["kind"] == "imag" and svals[r["text"]].imag == float("inf"))]
-    must = core.sample(big, 150 if quick else 600, rng) + \
+    must = core.sample(big, 150 if quick else 450, rng) + \
         core.sample([r for r in recs if r["kind"] != "int" and ("e" in r["text"].lower())], 50, rng)
     base = core.sample(recs, n_ret, rng)
     seen = set()
@@ -338,7 +338,7 @@ def plan_literals(tier, rng, rep, tlcs, mods, plans):
         mods.add(name, [L.LITERAL_FORMS[f][0] % r["text"] for r, f in chunk], chunk)
         names.append(name)
     # table shapes: modules whose numeric constant table contains only some size classes
-    shapes = literal_shapes(recs, svals, rng, 3 if quick else 8)
+    shapes = literal_shapes(recs, svals, rng, 3 if quick else 5)
     for i, (shape, chunk) in enumerate(shapes):
         name = "c09shape%d" % i
         mods.add(name, [r["text"] for r, f in chunk], chunk, per_fun=7)
@@ -446,7 +446,7 @@ def plan_fold(tier, rng, rep, tlcs, mods, plans):
         if so != po:
             rep.spec_drift("ConstFold value vs CPython", {"src": s, "spec": so, "python": po})
 
-    n_rep = 2500 if quick else 9000
+    n_rep = 2500 if quick else 6000
     chosen = set()
     for t_ in hz_tags:
         chosen.update(core.sample([s_ for s_ in hazards if "+".join(sorted(cases[s_]["tags"])) == t_], 300 if quick else 1200, rng))
@@ -460,12 +460,12 @@ def plan_fold(tier, rng, rep, tlcs, mods, plans):
         name = "c09fold%d" % (k // per_mod)
         mods.add(name, chunk, chunk)
         names.append(name)
-    wide = L.wide_cases(rng, 300 if quick else 1500)
+    wide = L.wide_cases(rng, 300 if quick else 1300)
     wtexts = {}
     for e in wide:
         wtexts.setdefault(e.text(), e)
     wl = sorted(wtexts)
-    seqs = sorted(set(L.seq_cases(rng, 250 if quick else 1200)))
+    seqs = sorted(set(L.seq_cases(rng, 250 if quick else 1100)))
     wl = wl + seqs
     wnames = []
     for k in range(0, len(wl), per_mod):
@@ -548,8 +548,8 @@ def plan_seq(tier, rng, rep, tlcs, mods, plans):
         so, po = L.seq_result_obs(r["res"], r["kind"]), py_obs(s)
         if so != po:
             rep.spec_drift("ConstSeq result vs CPython", {"src": s, "spec": so, "python": po})
-    chosen = set(core.sample(hazards, 500 if quick else 2500, rng))
-    chosen.update(core.sample([s for s in cases if s not in chosen], 700 if quick else 2500, rng))
+    chosen = set(core.sample(hazards, 500 if quick else 1500, rng))
+    chosen.update(core.sample([s for s in cases if s not in chosen], 700 if quick else 1500, rng))
     chosen = sorted(chosen)
     rng.shuffle(chosen)
     names = []
@@ -674,7 +674,7 @@ def plan_pool(tier, rng, rep, tlcs, mods, plans):
     front = []
     for i in range(max(len(hz), len(nm))):
         front += hz[i:i + 1] + nm[i:i + 1]
-    n_mod = 3 if quick else 6
+    n_mod = 3 if quick else 4
     cap = 300 if quick else 450
     layers = [[] for _ in range(n_mod)]
     used = [set() for _ in range(n_mod)]
@@ -694,7 +694,7 @@ def plan_pool(tier, rng, rep, tlcs, mods, plans):
     def taggable(p):
         return pairs[p]["taggable"] and pairs[p]["a"]["k"] != "atom" and pairs[p]["b"]["k"] != "atom"
     per_tagged = 450
-    n_tagged = 2 if quick else 6
+    n_tagged = 2 if quick else 4
     quota = per_tagged * n_tagged
     chosen = []
     for lst, share in ((hz, 0.3), (nm, 0.4), (sh, 0.15), (eq, 0.15)):
